@@ -508,6 +508,34 @@ pub fn replay_net(ctx: &NetCtx, c: &Value, rep: &mut Report) {
                 e2.use_resources(ctx.resources.to_vec());
                 e2
             });
+            // the same image loaded into a USED engine: it already holds regex rules whose compiled forms are
+            // cached, and it loads another image first, so that the rules of the image under test are allocated
+            // where earlier generations lived.  The loaded engine must not inherit anything from them.
+            let loaded_used = guarded(|| {
+                let bytes = eng.serialize_raw().expect("serialize");
+                let decoy: Vec<String> = (0..8).map(|i| format!("/zq{}*decoy{}^", i, i)).collect();
+                let decoy2: Vec<String> = (0..8).map(|i| format!("|https://other{}.example/*zz{}", i, i)).collect();
+                let mut e3 = Engine::from_rules_parametrised(&decoy, ParseOptions::default(), true, opt);
+                let t: Vec<&str> = tags.iter().map(|s| s.as_str()).collect();
+                e3.use_tags(&t);
+                for i in 0..8 {
+                    let r = Request::new(&format!("https://d.example/zq{}/x/decoy{}/", i, i), "https://s.example/", "script").unwrap();
+                    let _ = e3.check_network_request(&r);
+                }
+                let other = Engine::from_rules_parametrised(&decoy2, ParseOptions::default(), true, opt).serialize_raw().expect("serialize");
+                e3.deserialize(&other).expect("deserialize of another image");
+                for i in 0..8 {
+                    let r = Request::new(&format!("https://other{}.example/a/zz{}", i, i), "https://s.example/", "script").unwrap();
+                    let _ = e3.check_network_request(&r);
+                }
+                e3.deserialize(&bytes).expect("deserialize of own image");
+                e3.use_resources(ctx.resources.to_vec());
+                e3
+            });
+            match loaded_used {
+                Ok(e3) => engines.push(("after-reload-into-used-engine", e3)),
+                Err(p) => rep.mismatch(json!({"what": "reload-used", "rules": rules, "tags": tags, "opt": opt, "observed": "panic", "panic": p, "devs": []})),
+            }
             match loaded {
                 Ok(e2) => engines.push(("after-reload", e2)),
                 Err(p) => rep.mismatch(json!({"what": "reload", "rules": rules, "tags": tags, "opt": opt, "observed": "panic", "panic": p, "devs": []})),
